@@ -1,29 +1,49 @@
 (* C05 — the theorems assembled over all operations. *)
-From C05 Require Import Model Spec Corr Proofs ProofsRound ProofsBits ProofsCmp.
+From C05 Require Import Model Spec Corr Proofs ProofsRound ProofsBits ProofsCmp ProofsDiv ProofsGcd ProofsArith.
 Open Scope Z_scope.
 
 (* inside the guard: exact result, canonical representation, operands untouched *)
 Theorem exact_on_domain o args :
   in_domain o args = true -> s_out o args = Some (m_op o args).
 Proof.
-  intros Hd. destruct o as [ | | | |m| | | | | | | |c|b| ]; try discriminate Hd.
-  - apply add_exact, Hd. - apply sub_exact, Hd. - apply mul_exact, Hd.
+  intros Hd. destruct o as [ | | | |m| | | | | | | |c|b| ].
+  - apply add_exact, Hd. - apply sub_exact, Hd. - apply mul_exact, Hd. - apply div_exact, Hd.
   - destruct m; [apply floor_exact|apply ceiling_exact|apply truncate_exact|apply round_exact]; exact Hd.
   - apply mod_exact, Hd. - apply rem_exact, Hd. - apply abs_exact, Hd. - apply inc_exact, Hd. - apply dec_exact, Hd.
+  - apply gcd_exact, Hd. - apply lcm_exact, Hd.
   - destruct c; [apply cmp_exact|apply cmp_exact|apply cmp_exact|apply cmp_exact|apply eq_exact]; try discriminate; exact Hd.
   - apply bit_exact, Hd. - apply lognot_exact, Hd.
 Qed.
 
-(* on the value domain: exact values whatever the representation; operands untouched except by round *)
+(* no operation alters an operand, whatever the operands are *)
+Theorem operands_untouched o args : o_args (m_op o args) = args.
+Proof.
+  destruct o as [ | | | |m| | | | | | | |c|b| ]; cbn [m_op]; try reflexivity.
+  - unfold m_sub. destruct args as [|a [|? ?]]; reflexivity.
+  - unfold m_div. destruct args as [|a [|? ?]]; try reflexivity.
+    destruct a as [[|[?|?|]|?]|z|n d|]; try reflexivity.
+    + destruct (z =? 0); [reflexivity|]. destruct (z =? 1); reflexivity.
+    + destruct (n =? 0); reflexivity.
+  - apply round_operands.
+  - unfold m_mod. destruct args as [|n [|d [|? ?]]]; try reflexivity.
+    destruct (norm_kind n d); try reflexivity; destruct (as_int d =? 0); reflexivity.
+  - unfold m_rem. destruct args as [|n [|d [|? ?]]]; try reflexivity.
+    destruct (norm_kind n d); try reflexivity; destruct (as_int d =? 0); reflexivity.
+  - unfold m_abs. destruct args as [|[?|?|? ?|] [|? ?]]; reflexivity.
+  - unfold m_inc. destruct args as [|[?|?|? ?|] [|? ?]]; reflexivity.
+  - unfold m_inc. destruct args as [|[?|?|? ?|] [|? ?]]; reflexivity.
+  - unfold m_lognot. destruct args as [|[?|?|? ?|] [|? ?]]; reflexivity.
+Qed.
+
+(* on the value domain: exact values whatever the representation *)
 Theorem value_exact o args :
   value_domain o args = true ->
   exists so, s_out o args = Some so /\
     res_same_value (o_res so) (o_res (m_op o args)) = true /\
-    (o <> ORound Round -> o_args (m_op o args) = args).
+    o_args (m_op o args) = args.
 Proof.
   intros Hd. destruct o as [ | | | |m| | | | | | | |c|b| ]; try discriminate Hd; cbn [value_domain] in Hd.
-  - destruct (round_value_exact m args Hd) as (so & H1 & H2 & H3). exists so. repeat split; try assumption.
-    intros Hm. apply H3. congruence.
+  - destruct (round_value_exact m args Hd) as (so & H1 & H2 & H3). exists so. auto.
   - destruct (modrem_value_exact OMod args (or_introl eq_refl) Hd) as (so & H1 & H2 & H3). exists so. auto.
   - destruct (modrem_value_exact ORem args (or_intror eq_refl) Hd) as (so & H1 & H2 & H3). exists so. auto.
   - destruct (bit_value_exact b args Hd) as (so & H1 & H2 & H3). exists so. auto.
@@ -39,4 +59,16 @@ Lemma guard_examples_2 :
   value_domain (ORound Round) [VRat (-7) 2; VRat 1 3] = true /\ value_domain (ORound Floor) [VBig (- B); VFix (-3)] = true /\
   value_domain (ORound Ceiling) [VRat 7 2] = true /\ value_domain (ORound Floor) [VRat 1 2; VBig B] = false /\
   value_domain ORem [VBig (-50000000000000000000); VBig 20000000000000000000] = true.
+Proof. repeat split; vm_compute; reflexivity. Qed.
+
+Lemma repaired_examples :
+  in_domain OAdd [VFix 4611686018427387904; VFix 4611686018427387904] = true /\
+  in_domain OMul [VFix 4294967296; VFix 4294967296] = true /\
+  in_domain OSub [VBig B; VFix 1] = true /\ in_domain OSub [VFix (-9223372036854775808)] = true /\
+  in_domain OInc [VFix 9223372036854775807] = true /\ in_domain OAbs [VFix (-9223372036854775808)] = true /\
+  in_domain (ORound Truncate) [VFix (-9223372036854775808); VFix (-1)] = true /\
+  in_domain ORem [VFix 5; VFix 0] = true /\ in_domain (ORound Round) [VFix 5; VFix 0] = true /\
+  in_domain ODiv [VFix 6; VFix 4; VFix (-3)] = true /\ in_domain ODiv [VFix (-9223372036854775808); VFix (-1)] = true /\
+  in_domain OGcd [VBig B; VFix 10; VFix (-9223372036854775808)] = true /\
+  in_domain OLcm [VFix 4611686018427387904; VFix 3; VBig (- B)] = true.
 Proof. repeat split; vm_compute; reflexivity. Qed.
